@@ -2,7 +2,7 @@
    Part 1: the lexer on the printed pieces.  Part 2: category spellings.  Part 3: English terms.  Part 4: Japanese terms. *)
 From Coq Require Import List NArith Bool Arith Lia.
 Import ListNotations.
-Require Import Cat CatFacts Tree GenTables Fmt FmtProlog.
+Require Import Cat CatFacts Tree GenTables Fmt FmtProofs FmtProlog.
 Local Open Scope N_scope.
 
 Lemma Some_inj {A} (a b : A) : Some a = Some b -> a = b.
@@ -740,4 +740,112 @@ Lemma view_prolog_en_labels c ops sym hl l r v : view_prolog_en (Bin c ops sym h
 Proof.
   cbn [view_prolog_en]. destruct (assoc ops prolog_op_mapping) as [fv|]; [|discriminate].
   destruct (view_prolog_en l) as [a|]; [|discriminate]. destruct (view_prolog_en r) as [b|]; [|discriminate]. intros E. apply Some_inj in E. eauto.
+Qed.
+
+(* ================= Part 5: whole documents ================= *)
+Lemma pl_strip_prefix_app p x : pl_strip_prefix p (p ++ x) = Some x.
+Proof. induction p as [|c p IH]; cbn [app pl_strip_prefix]; [reflexivity|]. now rewrite N.eqb_refl. Qed.
+
+Definition clause_toks (k : nat) (ts : list ptok) : list ptok := PName s_ccg :: PLP :: PName (show_nat k) :: PComma :: ts ++ [PRP; PName [46]].
+
+Lemma clause_clean k body tail ts : clean body ts -> hd_delim body -> clean tail [PRP; PName [46]] ->
+  clean (s_ccg ++ [cLP] ++ show_nat k ++ body ++ tail) (PName s_ccg :: PLP :: [PName (show_nat k)] ++ ts ++ [PRP; PName [46]]).
+Proof.
+  intros Cb Hb Ct. destruct name_ok_consts as (_ & _ & _ & _ & Nccg).
+  apply cl_open; [exact Nccg|]. apply cleanD_app; [apply cleanD_name, show_nat_name | | now apply clean_app].
+  destruct body as [|x body]; [contradiction | exact Hb].
+Qed.
+
+Lemma en_clause_clean k t txt : pl_okb_en t = true -> print_prolog_en k t = Some txt ->
+  exists ts, en_toks t = Some ts /\ clean txt (clause_toks k ts).
+Proof.
+  intros Hok E. unfold print_prolog_en in E. destruct (pl_rec_en t 1) as [s|] eqn:Es; [|discriminate]. cbn [option_map] in E. apply Some_inj in E. subst txt.
+  destruct (en_lex t Hok 1%nat s Es) as (ts & Et & Cs). exists ts. split; [exact Et|].
+  rewrite (app_assoc s_cnl s). exact (clause_clean k (s_cnl ++ s) [cRP; 46; cNL] (PComma :: ts) (cl_cnl _ _ Cs) eq_refl clean_end_en).
+Qed.
+
+Lemma ja_clause_clean k t txt : pl_okb_ja t = true -> print_prolog_ja k t = Some txt ->
+  exists ts, ja_toks t = Some ts /\ clean txt (clause_toks k ts).
+Proof.
+  intros Hok E. unfold print_prolog_ja in E. destruct (pl_rec_ja t 1) as [s|] eqn:Es; [|discriminate]. cbn [option_map] in E. apply Some_inj in E. subst txt.
+  destruct (ja_lex t Hok 1%nat s Es) as (ts & Et & Cs & _). exists ts. split; [exact Et|].
+  rewrite (app_assoc [cCOMMA] s). exact (clause_clean k ([cCOMMA] ++ s) [cRP; 46; cNL; cNL] (PComma :: ts) (cl_comma _ _ Cs) eq_refl clean_end_ja).
+Qed.
+
+(* the records of a document, generically: printer, token form, view, reader *)
+Section Docs.
+Variable pr : nat -> tree -> option text.
+Variable toks : tree -> option (list ptok).
+Variable vw : tree -> option (view tok5).
+Variable dec : nat -> list ptok -> option (view tok5 * list ptok).
+Variable okb : tree -> bool.
+Variable need : tree -> nat.
+Hypothesis pr_clean : forall k t txt, okb t = true -> pr k t = Some txt -> exists ts, toks t = Some ts /\ clean txt (clause_toks k ts).
+Hypothesis toks_dec : forall t, okb t = true -> forall ts, toks t = Some ts ->
+  exists v, vw t = Some v /\ forall fuel rest, (need t <= fuel)%nat -> dec fuel (ts ++ rest) = Some (v, rest).
+Hypothesis toks_len : forall t ts, toks t = Some ts -> (need t <= length ts)%nat.
+
+Definition rec_view (r : nat * nat * tree) : option (text * view tok5) := option_map (fun v => (show_nat (fst (fst r)), v)) (vw (snd r)).
+
+Lemma docs_roundtrip (post : text) (recs : list (nat * nat * tree)) : clean post [] ->
+  Forall (fun r => okb (snd r) = true) recs -> forall body,
+  concat_opt (map (fun r : nat * nat * tree => option_map (fun s => s ++ post) (pr (fst (fst r)) (snd r))) recs) = Some body ->
+  exists tks vs, clean body tks /\ pl_opt_list (map rec_view recs) = Some vs /\ (length recs <= length tks)%nat /\
+                 forall n, (length recs <= n)%nat -> dec_clauses dec (S n) tks = Some vs.
+Proof.
+  intros Cp Hok. induction Hok as [|[[k i] t] recs Ht Hr IH]; intros body E; cbn [map concat_opt] in E.
+  - apply Some_inj in E; subst body. exists [], []. split; [apply clean_nil|]. split; [reflexivity|]. split; [cbn [length]; lia|]. intros n _. reflexivity.
+  - cbn [fst snd] in *. destruct (pr k t) as [s|] eqn:Ep; [|discriminate]. cbn [option_map] in E.
+    match type of E with match ?x with _ => _ end = _ => destruct x as [body'|] eqn:Eb; [|discriminate] end. apply Some_inj in E; subst body.
+    destruct (IH body' eq_refl) as (tks & vs & Cb & Ev & Hl & Hd).
+    destruct (pr_clean k t s Ht Ep) as (ts & Et & Cs). destruct (toks_dec t Ht ts Et) as (v & Evw & Hdec).
+    exists (clause_toks k ts ++ tks), ((show_nat k, v) :: vs). split; [|split; [|split]].
+    + apply clean_app; [|exact Cb]. rewrite <- (app_nil_r (clause_toks k ts)). now apply clean_app.
+    + cbn [map pl_opt_list]. unfold rec_view at 1. cbn [fst snd]. rewrite Evw. cbn [option_map]. now rewrite Ev.
+    + rewrite app_length. unfold clause_toks. cbn [length]. lia.
+    + intros n Hn. cbn [length] in Hn.
+      unfold clause_toks. cbn [app]. rewrite <- app_assoc. cbn [app dec_clauses]. rewrite text_eqb_refl.
+      rewrite Hdec; [|rewrite app_length; pose proof (toks_len t ts Et); lia]. destruct n as [|n]; [lia|]. rewrite (Hd n ltac:(lia)). reflexivity.
+Qed.
+End Docs.
+
+Lemma Forall_records (P : tree -> Prop) (b : list (list tree)) :
+  Forall (Forall P) b -> Forall (fun r : nat * nat * tree => P (snd r)) (number_batch b).
+Proof.
+  intros H. apply Forall_map. unfold number_batch. rewrite FmtProofs.number_from_snd. now apply Forall_concat.
+Qed.
+
+Lemma doc_tokens body tks : clean body tks -> pl_tokens body = tks.
+Proof. intros C. unfold pl_tokens. rewrite <- (app_nil_r body), (C []). cbn [plex flushN]. apply app_nil_r. Qed.
+
+Theorem prolog_en_doc_roundtrip b txt : Forall (Forall (fun t => pl_okb_en t = true)) b -> prolog_en_doc b = Some txt ->
+  dec_prolog_doc dec_en txt = doc_views view_prolog_en b /\ dec_prolog_doc dec_en txt <> None.
+Proof.
+  change (doc_views view_prolog_en b) with (pl_opt_list (map (rec_view view_prolog_en) (number_batch b))).
+  intros Hok E. pose proof (Forall_records _ b Hok) as Hr. unfold prolog_en_doc in E.
+  assert (E' : option_map (fun body => prolog_header ++ [cNL] ++ body)
+                 (concat_opt (map (fun rec : nat * nat * tree => option_map (fun s => s ++ [cNL]) (print_prolog_en (fst (fst rec)) (snd rec))) (number_batch b))) = Some txt).
+  { destruct b as [|[|t0 ts0] b']; [discriminate | discriminate | exact E]. }
+  clear E. destruct (concat_opt _) as [body|] eqn:Eb; [|discriminate]. cbn [option_map] in E'. apply Some_inj in E'. subst txt.
+  destruct (docs_roundtrip print_prolog_en en_toks view_prolog_en dec_en pl_okb_en fuel_of en_clause_clean en_dec en_toks_length [cNL] (number_batch b) clean_nl Hr body Eb)
+    as (tks & vs & Cb & Ev & Hl & Hd).
+  unfold dec_prolog_doc. rewrite (app_assoc prolog_header), pl_strip_prefix_app. cbv zeta. rewrite (doc_tokens body tks Cb), Ev.
+  rewrite (Hd (length tks) Hl). split; [reflexivity | discriminate].
+Qed.
+
+Theorem prolog_ja_doc_roundtrip b txt : Forall (Forall (fun t => pl_okb_ja t = true)) b -> prolog_ja_doc b = Some txt ->
+  dec_prolog_doc dec_ja txt = doc_views view_prolog_ja b /\ dec_prolog_doc dec_ja txt <> None.
+Proof.
+  change (doc_views view_prolog_ja b) with (pl_opt_list (map (rec_view view_prolog_ja) (number_batch b))).
+  intros Hok E. pose proof (Forall_records _ b Hok) as Hr. unfold prolog_ja_doc in E.
+  assert (E' : option_map (fun body => prolog_header ++ [cNL] ++ body)
+                 (concat_opt (map (fun rec : nat * nat * tree => print_prolog_ja (fst (fst rec)) (snd rec)) (number_batch b))) = Some txt).
+  { destruct b as [|[|t0 ts0] b']; [discriminate | discriminate | exact E]. }
+  clear E. destruct (concat_opt _) as [body|] eqn:Eb; [|discriminate]. cbn [option_map] in E'. apply Some_inj in E'. subst txt.
+  assert (Eb' : concat_opt (map (fun r : nat * nat * tree => option_map (fun s => s ++ []) (print_prolog_ja (fst (fst r)) (snd r))) (number_batch b)) = Some body).
+  { rewrite <- Eb. f_equal. apply map_ext. intros r. destruct (print_prolog_ja _ _); cbn [option_map]; [now rewrite app_nil_r | reflexivity]. }
+  destruct (docs_roundtrip print_prolog_ja ja_toks view_prolog_ja dec_ja pl_okb_ja depth_of ja_clause_clean ja_dec ja_toks_length [] (number_batch b) clean_nil Hr body Eb')
+    as (tks & vs & Cb & Ev & Hl & Hd).
+  unfold dec_prolog_doc. rewrite (app_assoc prolog_header), pl_strip_prefix_app. cbv zeta. rewrite (doc_tokens body tks Cb), Ev.
+  rewrite (Hd (length tks) Hl). split; [reflexivity | discriminate].
 Qed.
